@@ -38,7 +38,7 @@ def fresh_tables(M, patch=None):
 
 
 def run_output(M, lists, json=False, batch=False, verbose=False, level='info', client=False, sw='OpenSSH_8.0', host_keys=None, dh=None,
-               patch=None, pkm=None, header=(), notes='', print_target=False, host='host', port=22, protocol=(2, 0), comments=None):
+               patch=None, pkm=None, header=(), notes='', print_target=False, host='host', port=22, protocol=(2, 0), comments=None, c2s=None):
     """real output(); returns dict(ret, lines, doc)"""
     fresh_tables(M, patch)
     aconf = M.auditconf.AuditConf(host, port)
@@ -52,7 +52,8 @@ def run_output(M, lists, json=False, batch=False, verbose=False, level='info', c
     if lists is not None:
         L = dict(lists)
         # the tool reports the server-to-client lists; for server audits the client-to-server lists are decoys (a consumer of the wrong list becomes visible)
-        c2s = None if client else {'enc': ['decoy-c2s-cipher'], 'mac': ['decoy-c2s-mac', 'hmac-md5'], 'comp': ['decoy-c2s-compression']}
+        if c2s is None:
+            c2s = None if client else {'enc': ['decoy-c2s-cipher'], 'mac': ['decoy-c2s-mac', 'hmac-md5'], 'comp': ['decoy-c2s-compression']}
         kex = make_kex(M, L, host_keys=host_keys, dh=dh, c2s=c2s)
     banner = M.banner.Banner(protocol, sw, comments, True) if sw is not None else None
     cj = CaptureJson()
